@@ -43,6 +43,7 @@ type CallSpec struct { // obligations at a call site: //@ at call N <callee> ass
 	Callee  string
 	Ord     int // 0 = every call to callee
 	Asserts []*Clause
+	Lets    []*Clause // ghost snapshots evaluated right after the call ($result = its result)
 }
 
 type FuncContract struct {
@@ -244,6 +245,15 @@ func ParseContractFile(path, pkgPath string) (*ContractFile, error) {
 					return nil, fmt.Errorf("%s:%d: bad loop anchor", path, ln)
 				}
 				anchor, _ := strconv.Unquote(q)
+				// optional occurrence: "text"#2 is the second loop (in source order) starting with text
+				if after := rest[len(q):]; strings.HasPrefix(after, "#") {
+					k := 1
+					for k < len(after) && after[k] >= '0' && after[k] <= '9' {
+						k++
+					}
+					anchor += "\x00" + after[1:k]
+					q = q + after[:k]
+				}
 				ord := 0
 				for k, a := range cur.LoopAnchors {
 					if a == anchor {
@@ -368,11 +378,6 @@ func ParseContractFile(path, pkgPath string) (*ContractFile, error) {
 					return nil, fmt.Errorf("%s:%d: bad call ordinal", path, ln)
 				}
 				callee := fs[2]
-				idx := strings.Index(rest, " assert ")
-				if idx < 0 {
-					return nil, fmt.Errorf("%s:%d: at call needs assert", path, ln)
-				}
-				rest = strings.TrimSpace(rest[idx+8:])
 				var cs *CallSpec
 				for _, c := range cur.Calls {
 					if c.Callee == callee && c.Ord == ord {
@@ -383,7 +388,24 @@ func ParseContractFile(path, pkgPath string) (*ContractFile, error) {
 					cs = &CallSpec{Callee: callee, Ord: ord}
 					cur.Calls = append(cur.Calls, cs)
 				}
-				cs.Asserts = append(cs.Asserts, newClause())
+				if idx := strings.Index(rest, " let "); idx >= 0 && !strings.Contains(rest[:idx], " assert ") {
+					// at call N callee let name := expr   (ghost snapshot taken right after the call; $result is its result)
+					parts := strings.SplitN(rest[idx+5:], ":=", 2)
+					if len(parts) != 2 {
+						return nil, fmt.Errorf("%s:%d: at call let needs `name := expr`", path, ln)
+					}
+					rest = strings.TrimSpace(parts[1])
+					c := newClause()
+					c.Label = strings.TrimSpace(parts[0])
+					cs.Lets = append(cs.Lets, c)
+				} else {
+					idx := strings.Index(rest, " assert ")
+					if idx < 0 {
+						return nil, fmt.Errorf("%s:%d: at call needs assert or let", path, ln)
+					}
+					rest = strings.TrimSpace(rest[idx+8:])
+					cs.Asserts = append(cs.Asserts, newClause())
+				}
 			} else {
 				return nil, fmt.Errorf("%s:%d: bad at clause", path, ln)
 			}
